@@ -276,6 +276,7 @@ def EXTRA(tier, seed):
     states = transitions = validated = 0
     for T, K in cfgs:
         r = instances.check(T, K)
+        K = r["K"]        # grown to the number of CFG nodes: loop-free code, so every complete schedule fits
         print("[C09/symbmc] %d concurrent first calls, K=%d: %s wall=%.1fs nodes=%d" % (T, K, r["result"], r["wall_s"], r["nodes"]), flush=True)
         runs.append({"threads": T, "K": K, "result": r["result"], "wall_s": round(r["wall_s"], 2), "nodes": r["nodes"],
                      "assertions": r["assertions"], "completion_reachable": r["completion_reachable"],
@@ -304,6 +305,6 @@ def EXTRA(tier, seed):
             out["inconclusive"].append("solver answered %s" % r["result"])
     out["coverage"].update({"states": states, "transitions": transitions, "traces_validated_against_impl": validated,
                             "samples": samples, "symbmc_runs": runs})
-    out["assumptions"] = ["statement-level atomicity (CPython GIL)", "createInstance is abstracted as one creation step",
-                          "at most K statements per schedule; thread counts as listed"]
+    out["assumptions"] = ["statement-level atomicity (CPython GIL)", "the instance factory (nested helper, Daemon method or direct class call) is abstracted as one creation step",
+                          "K = number of CFG nodes (the code is loop free, every node fires at most once); thread counts as listed"]
     return out
